@@ -211,8 +211,10 @@ size_t carquet_delta_length_max_encoded_size(
         total_data_size += values[i].length;
     }
 
-    /* Delta encoding overhead for lengths (very conservative estimate) */
-    size_t lengths_overhead = (size_t)num_values * 5 + 100;
+    /* Worst case of the DELTA_BINARY_PACKED length stream: a 40-byte header, then per block of 128
+     * deltas a min-delta varint (10 bytes), 4 width bytes and 128 values of at most 32 bits
+     * (num_values * 5 + 100 was too small for a few values with wide deltas) */
+    size_t lengths_overhead = 40 + ((size_t)num_values / 128 + 1) * (10 + 4 + 128 * 4);
 
     return total_data_size + lengths_overhead;
 }
